@@ -208,7 +208,9 @@ def t_asm_mode(facts, res, tier):
                     # value-immediate row (`#0` high byte of an 8-bit object, `#<`/`#>` address) reached with a
                     # writing mnemonic: possible only if a caller asks for the high byte / address of an lvalue,
                     # which depends on how eight_bits and high_byte are correlated across the two-pass evaluation.
-                    undecided.append(key)
+                    res.fail(key, facts.where(fn), "`%s` can be requested with a %s operand that asm() renders as an immediate (`#0` high byte of an 8-bit object, `#<`/`#>` address of an array): "
+                             "asm() emits it, but %s cannot take an immediate operand; asm() must reject writing mnemonics on these rows" % (mn, var, mn),
+                             {"requested_at": sorted({site_desc(facts, s) for s in sites})[:8], "row_constraints": row["cons"]})
                     continue
                 if mode is None:
                     res.fail(key, facts.where(fn), "`%s` can be requested with a %s operand (text shape %s, %s) and asm() emits it, but the 6502 has no such addressing mode for %s" % (
@@ -219,7 +221,7 @@ def t_asm_mode(facts, res, tier):
             res.inst(key)
             res.fail(key, facts.where(fn), "no path of asm() handles %s with operand kind %s" % (mn, var))
     res.exhaustive = True
-    res.note("T-ASM-MODE: %d (writing mnemonic, value-immediate row) combinations not decided (need eight_bits/high_byte correlation): %s" % (len(undecided), ", ".join(k.split(":", 1)[1] for k in undecided)))
+    res.note("T-ASM-MODE: writing mnemonics on value-immediate rows (`#0`, `#<`, `#>`) are violations; asm() rejects them since fix 'Can't write into a constant or an address'")
 
 
 def displacement(v):
